@@ -2,8 +2,8 @@ package harness
 
 import (
 	"fmt"
-	"os"
 	"math/rand/v2"
+	"os"
 	"time"
 )
 
@@ -12,9 +12,9 @@ import (
 // can edit it.
 type Config struct {
 	Seed   int64  `json:"seed"`
-	Family string `json:"family"` // which generator produced it
+	Family string `json:"family"`          // which generator produced it
 	Focus  string `json:"focus,omitempty"` // property whose aspects the generator emphasises
-	Engine string `json:"engine"` // v1 | v2
+	Engine string `json:"engine"`          // v1 | v2
 
 	Sources   []SrcCfg  `json:"sources"`
 	Dests     []DstCfg  `json:"dests"`
@@ -46,20 +46,20 @@ type Config struct {
 
 	Scenario      string `json:"scenario,omitempty"`        // control families: the one root cause / history class of this run
 	FaultOnlyKeys string `json:"fault_only_keys,omitempty"` // db.err is injected only on keys with this prefix
-	Hostile    bool `json:"hostile,omitempty"`     // some plugin answers with hostile shapes
-	HostileSrc bool `json:"hostile_src,omitempty"` // ... including sources (positions ambiguous)
+	Hostile       bool   `json:"hostile,omitempty"`         // some plugin answers with hostile shapes
+	HostileSrc    bool   `json:"hostile_src,omitempty"`     // ... including sources (positions ambiguous)
 	// Healthy: no injected faults, every outcome tolerated: exact drain / liveness oracles apply.
 	Healthy bool `json:"healthy,omitempty"`
 	Gates   int  `json:"gates_pct,omitempty"` // percentage of gate sites armed
 }
 
 type SrcCfg struct {
-	ID       string    `json:"id"`
-	NRec     int       `json:"nrec"`
-	MaxBatch int       `json:"max_batch"`
-	Pruning  bool      `json:"pruning,omitempty"`
-	HostilePct int     `json:"hostile_pct,omitempty"`
-	Procs    []ProcCfg `json:"procs,omitempty"`
+	ID         string    `json:"id"`
+	NRec       int       `json:"nrec"`
+	MaxBatch   int       `json:"max_batch"`
+	Pruning    bool      `json:"pruning,omitempty"`
+	HostilePct int       `json:"hostile_pct,omitempty"`
+	Procs      []ProcCfg `json:"procs,omitempty"`
 }
 
 type DstCfg struct {
@@ -75,14 +75,14 @@ type ProcCfg struct {
 	Workers int    `json:"workers,omitempty"`
 	Cond    string `json:"cond,omitempty"`
 	// outcome script, per-cent of records (hash based, deterministic per record)
-	ModifyPct int `json:"modify_pct,omitempty"`
-	FilterPct int `json:"filter_pct,omitempty"`
-	ErrorPct  int `json:"error_pct,omitempty"`
-	SplitPct  int `json:"split_pct,omitempty"`
-	ShortPct  int `json:"short_pct,omitempty"` // v2: return fewer results than inputs for this call
-	Hostile   int `json:"hostile_pct,omitempty"`
-	OpenFail  int `json:"open_fail,omitempty"` // generation whose Open fails (0 = none)
-	Stuck     bool `json:"stuck,omitempty"`    // never makes progress: every result is "retry"
+	ModifyPct int  `json:"modify_pct,omitempty"`
+	FilterPct int  `json:"filter_pct,omitempty"`
+	ErrorPct  int  `json:"error_pct,omitempty"`
+	SplitPct  int  `json:"split_pct,omitempty"`
+	ShortPct  int  `json:"short_pct,omitempty"` // v2: return fewer results than inputs for this call
+	Hostile   int  `json:"hostile_pct,omitempty"`
+	OpenFail  int  `json:"open_fail,omitempty"` // generation whose Open fails (0 = none)
+	Stuck     bool `json:"stuck,omitempty"`     // never makes progress: every result is "retry"
 }
 
 type DLQCfg struct {
@@ -101,11 +101,11 @@ type RecoveryCfg struct {
 
 // Action is one step of a simulated client's script.
 type Action struct {
-	Client string `json:"client"`          // client name; actions of one client run in order
-	Op     string `json:"op"`              // start stop forcestop stopwait wait stopall crash reconfigure ...
-	Arg    string `json:"arg,omitempty"`   // op argument
-	When   string `json:"when,omitempty"`  // trigger kind: "" (immediately) | acked | emitted | written | step | time
-	N      int    `json:"n,omitempty"`     // trigger threshold
+	Client string `json:"client"`         // client name; actions of one client run in order
+	Op     string `json:"op"`             // start stop forcestop stopwait wait stopall crash reconfigure ...
+	Arg    string `json:"arg,omitempty"`  // op argument
+	When   string `json:"when,omitempty"` // trigger kind: "" (immediately) | acked | emitted | written | step | time
+	N      int    `json:"n,omitempty"`    // trigger threshold
 	Note   string `json:"note,omitempty"`
 }
 
